@@ -248,20 +248,62 @@ func runC13Text(c *harness.Ctx, p *spec.Path, text, doc string, useNum bool) {
 		res2, _ := ev.Eval(p, src, src) // src now holds the sentinel; filters may select differently, so locate by identity instead
 		_ = res2
 		liveLoc, found := locate(src, sentinel)
-		if !found {
-			continue
+		if found {
+			if liveLoc.Kind == spec.LMap {
+				liveLoc.Map[liveLoc.Key] = sentinel2
+			} else {
+				liveLoc.List[liveLoc.Idx] = sentinel2
+			}
+			if got := a.Get(); got != sentinel2 {
+				det["get"] = lib.JS(got)
+				c.Violation("get-not-live "+ikey, "Get() does not reflect a later in-place update of the selected map entry / array element", det)
+				continue
+			}
+			c.Cover("get:live")
 		}
-		if liveLoc.Kind == spec.LMap {
-			liveLoc.Map[liveLoc.Key] = sentinel2
-		} else {
-			liveLoc.List[liveLoc.Idx] = sentinel2
+		// further Sets through the SAME accessor with values of every JSON kind, containers over containers of the same kind included
+		// (object over object, array over array, empty ones, null): each replaces exactly that location and is what Get() returns
+		values := []interface{}{
+			map[string]interface{}{"set": 1.0}, map[string]interface{}{"set": []interface{}{2.0}}, map[string]interface{}{},
+			[]interface{}{9.0}, []interface{}{map[string]interface{}{"x": nil}}, []interface{}{}, nil, true, 7.5, "",
 		}
-		if got := a.Get(); got != sentinel2 {
-			det["get"] = lib.JS(got)
-			c.Violation("get-not-live "+ikey, "Get() does not reflect a later in-place update of the selected map entry / array element", det)
-			continue
+		if costly || len(doc) > 3000 {
+			// every value costs a whole-document comparison: on big documents one same-kind pair only
+			values = values[3*((i+c.K)%2):][:2]
 		}
-		c.Cover("get:live")
+		for j, v := range values {
+			var pan interface{}
+			func() {
+				defer func() { pan = recover() }()
+				a.Set(v)
+			}()
+			if pan != nil {
+				det["panic"] = fmt.Sprint(pan)
+				det["set_value"] = lib.JS(v)
+				det["value_number"] = j
+				c.Violation("set-panic "+ikey, "Set panicked", det)
+				break
+			}
+			if loc.Kind == spec.LMap {
+				loc.Map[loc.Key] = v
+			} else {
+				loc.List[loc.Idx] = v
+			}
+			if !lib.Same(src, want) {
+				det["after_set"] = lib.JS(src)
+				det["expected"] = lib.JS(want)
+				det["set_value"] = lib.JS(v)
+				c.Violation("set-location "+ikey, "Set did not replace exactly the selected location (document differs from the original with that one location replaced)", det)
+				break
+			}
+			if got := a.Get(); !lib.Same(got, v) {
+				det["get"] = lib.JS(got)
+				det["set_value"] = lib.JS(v)
+				c.Violation("get-after-set "+ikey, "Get() after Set(v) does not return v", det)
+				break
+			}
+			c.Cover("set:value-of-every-kind")
+		}
 	}
 }
 
